@@ -6,7 +6,7 @@ Units == {<<s, s + k, l>> : s \in 0..1, k \in 1..2, l \in 1..2} \cup {<<>>}
 Tuples == {t \in [1..NA -> Units] : \E i \in 1..NA : IsReal(t[i])}
 VARIABLES al, A, cat
 Init == /\ al \in UNION {[1..k -> Tuples] : k \in 1..MaxT}
-        /\ A \in {[alpha |-> a, de |-> d, cattype |-> "abs", M |-> <<>>] : a \in Alphas, d \in DEs}
+        /\ A \in {[alpha |-> a, ad |-> 1, de |-> d, cattype |-> "abs", M |-> <<>>] : a \in Alphas, d \in DEs}
         /\ cat \in {0, 1, 3}                       \* gamma-cat, a present category, an absent one
 Next == UNCHANGED <<al, A, cat>>
 Spec == Init /\ [][Next]_<<al, A, cat>>
